@@ -1,0 +1,227 @@
+/*
+ * myth_verif.h --- verification hooks (off unless MYTH_VERIF is defined)
+ *
+ * With MYTH_VERIF undefined every macro below expands to nothing, so the
+ * library is unchanged.  With it defined, the macros call into a small
+ * runtime that lives outside this repository (schedule points with seeded
+ * delay injection, coverage counters, an ownership ledger for descriptors
+ * and stacks, a logical deadlock detector, a virtual clock).
+ */
+#pragma once
+#ifndef MYTH_VERIF_H_
+#define MYTH_VERIF_H_
+
+#ifdef MYTH_VERIF
+
+#include <stddef.h>
+#include <stdint.h>
+#include <time.h>
+
+/* X(name, class)   class: W = window point, A = amplifier point,
+   B = blocking-path point (also an amplifier), S = spin site, C = coverage */
+#define MYTH_VERIF_IDS(X) \
+  /* create / join / finish / detach / yield (myth_sched_func.h) */ \
+  X(CREATE_AFTER_PARENT_PUSH, A) \
+  X(CREATE_PF_AFTER_PUSH, A) \
+  X(CREATE1_ENTER, W) \
+  X(JOIN_LOCKED, W) \
+  X(JOIN_BEFORE_POP, B) \
+  X(JOIN_CB_BEFORE_SET, W) \
+  X(JOIN_CB_AFTER_UNLOCK, W) \
+  X(JOIN_WAIT_FR2, S) \
+  X(JOIN_BEFORE_RELEASE, W) \
+  X(TRYJOIN_LOCKED, W) \
+  X(FIN_BEFORE_LOCK, W) \
+  X(FIN_LOCKED, W) \
+  X(FIN_BEFORE_POP, A) \
+  X(EP_CB_BEFORE_STACKREL, W) \
+  X(EP_CB_BEFORE_STATUS, W) \
+  X(EP_CB_AFTER_STATUS, W) \
+  X(DETACH_ENTER, W) \
+  X(DETACH_LOCKED, W) \
+  X(YIELD_BEFORE_SWITCH, W) \
+  X(YIELD_CB_BEFORE_PUT, W) \
+  X(YIELD_CB_AFTER_PUT, A) \
+  X(JOIN_FOUND_FINISHED, C) \
+  X(JOIN_BLOCK_NEXT, C) \
+  X(JOIN_BLOCK_SCHED, C) \
+  X(FIN_SAW_WAITER, C) \
+  X(FIN_NEXT, C) \
+  X(FIN_SCHED, C) \
+  X(FIN_DETACHED, C) \
+  X(DETACH_FINISHED_FAST, C) \
+  X(DETACH_FINISHED_LOCKED, C) \
+  X(DETACH_RUNNING, C) \
+  /* blocking / waking (myth_sync_func.h) */ \
+  X(BQ_BEFORE_POP, B) \
+  X(BQ_CB_BEFORE_ENQ, W) \
+  X(BQ_CB_AFTER_ENQ, W) \
+  X(BQ_CB_AFTER_UNLOCK, W) \
+  X(BS_BEFORE_POP, B) \
+  X(BS_CB_BEFORE_PUSH, W) \
+  X(BS_CB_AFTER_PUSH, W) \
+  X(WAKE1_SPIN, S) \
+  X(WAKE1_AFTER_DEQ, W) \
+  X(WAKE1_AFTER_CB, W) \
+  X(WAKE1_AFTER_PUSH, A) \
+  X(WAKE1_WAITED, C) \
+  X(WAKENQ_SPIN, S) \
+  X(WAKENQ_AFTER_DEQ, W) \
+  X(WAKENQ_BEFORE_PUSH, W) \
+  X(WAKENQ_AFTER_PUSH, A) \
+  X(WAKENQ_WAITED, C) \
+  X(WAKENS_SPIN, S) \
+  X(WAKENS_AFTER_POP, W) \
+  X(WAKENS_BEFORE_PUSH, W) \
+  X(WAKENS_AFTER_PUSH, A) \
+  X(WAKENS_WAITED, C) \
+  X(WAKEANY_AFTER_DEQ, W) \
+  X(WAKEANY_AFTER_PUSH, A) \
+  X(WAKEANY_EMPTY, C) \
+  X(ONCE_BEFORE_CAS, W) \
+  X(ONCE_AFTER_INIT, W) \
+  X(ONCE_WAITING, C) \
+  X(MTX_LOCK_BEFORE_CAS, W) \
+  X(MTX_LOCK_AFTER_SEAT, W) \
+  X(MTX_LOCK_RESUMED, W) \
+  X(MTX_TRYLOCK_BEFORE_CAS, W) \
+  X(MTX_UNLOCK_BEFORE_CAS, W) \
+  X(MTX_UNLOCK_AFTER_DEC, W) \
+  X(MTX_CLEAR_BIT, W) \
+  X(MTX_UNLOCK_WAKES, C) \
+  X(MTX_LOCK_BLOCKS, C) \
+  X(COND_WAIT_RESUMED, W) \
+  X(BAR_BEFORE_CAS, W) \
+  X(BAR_AFTER_CAS, W) \
+  X(BAR_AFTER_RESET, W) \
+  X(BAR_LAST, C) \
+  X(JC_WAIT_BEFORE_CAS, W) \
+  X(JC_WAIT_AFTER_CAS, W) \
+  X(JC_WAIT_RESUMED, W) \
+  X(JC_DEC_BEFORE_CAS, W) \
+  X(JC_DEC_BEFORE_WAKE, W) \
+  X(JC_WAIT_IMMEDIATE, C) \
+  X(UNC_BEFORE_POP, B) \
+  X(UNC_CB_BEFORE_PUB, W) \
+  X(UNC_SIG_SPIN, S) \
+  X(UNC_SIG_AFTER_CLEAR, W) \
+  X(UNC_SIG_AFTER_PUSH, A) \
+  X(UNC_SIG_EARLY, C) \
+  X(FE_AFTER_STATUS, W) \
+  X(FE_AFTER_SIGNAL, W) \
+  /* sleep stack (myth_sleep_queue_func.h) */ \
+  X(SS_PUSH_BEFORE_CAS, W) \
+  X(SS_POP_BEFORE_CAS, W) \
+  /* run queue (myth_wsqueue_func.h, myth_if_native.c) */ \
+  X(Q_PUSH_BEFORE_SLOT, W) \
+  X(Q_PUSH_BEFORE_TOP, W) \
+  X(Q_PUSH_RECENTRE, C) \
+  X(Q_POP_AFTER_DEC, W) \
+  X(Q_POP_AFTER_FENCE, W) \
+  X(Q_POP_SLOW_LOCKED, W) \
+  X(Q_POP_FAST, C) \
+  X(Q_POP_SLOW_OK, C) \
+  X(Q_POP_RESET, C) \
+  X(Q_TAKE_LOCKED, W) \
+  X(Q_TAKE_AFTER_INC, W) \
+  X(Q_TAKE_AFTER_FENCE, W) \
+  X(Q_TAKE_BEFORE_ROLLBACK, W) \
+  X(Q_TAKE_OK, C) \
+  X(Q_TAKE_ROLLBACK, C) \
+  X(Q_PUT_LOCKED, W) \
+  X(Q_PUT_RECENTRE, C) \
+  X(Q_PASS_LOCKED, W) \
+  X(Q_PASS_BUSY, C) \
+  X(Q_PASS_FULL, C) \
+  X(WSAPI_TAKE_AFTER_INC, W) \
+  X(WSAPI_TAKE_AFTER_FENCE, W) \
+  X(WSAPI_TAKE_DECLINED, C) \
+  X(WSAPI_TAKE_OK, C) \
+  X(WSAPI_TAKE_BUSY, C) \
+  X(WSAPI_PEEK_AFTER_INC, W) \
+  X(WSAPI_PEEK_FILLED, C) \
+  /* keys (myth_tls_func.h) */ \
+  X(KEY_ALLOC_BEFORE_CAS, W) \
+  X(KEY_DEALLOC_BEFORE_CAS, W) \
+  /* init / fini (myth_init.c, myth_worker_func.h) */ \
+  X(INIT_WON, C) \
+  X(INIT_WAITED, C) \
+  X(FINI_MIGRATE, C) \
+  X(SCHED_STEAL_OK, C)
+
+#define MYTH_VERIF_ENUM_(name, cls) MYTH_VERIF_ID_##name,
+enum { MYTH_VERIF_IDS(MYTH_VERIF_ENUM_) MYTH_VERIF_N_IDS };
+
+/* event kinds for MYTH_VERIF_EV */
+enum {
+  MYTH_VERIF_EV_FINISHED = 1,   /* a = thread; FREE_READY2 has been published */
+  MYTH_VERIF_EV_FIN_PRE,        /* a = thread; about to publish FREE_READY2 */
+  MYTH_VERIF_EV_Q_STORE_TOP,    /* a = queue */
+  MYTH_VERIF_EV_Q_LOAD_BASE,
+  MYTH_VERIF_EV_Q_STORE_BASE,
+  MYTH_VERIF_EV_Q_LOAD_TOP,
+  MYTH_VERIF_EV_FENCE_R,
+  MYTH_VERIF_EV_FENCE_W,
+  MYTH_VERIF_EV_FENCE_RW,
+  MYTH_VERIF_EV_Q_LOCKED,       /* a = queue; q->lock acquired */
+  MYTH_VERIF_EV_Q_UNLOCK,
+  MYTH_VERIF_EV_INIT_BEGIN,
+  MYTH_VERIF_EV_INIT_END,
+  MYTH_VERIF_EV_FINI_BEGIN,
+  MYTH_VERIF_EV_FINI_END,
+  MYTH_VERIF_EV_WORKER_EXIT
+};
+
+enum { MYTH_VERIF_SCHED_RUN = 1, MYTH_VERIF_SCHED_BACK, MYTH_VERIF_SCHED_IDLE };
+
+#ifdef __cplusplus
+extern "C" {
+#endif
+void myth_verif_point(int id);
+void myth_verif_spin(int id);
+void myth_verif_cov(int id);
+void myth_verif_ev(int kind, const void * a, long b);
+void myth_verif_stack_acq(void * stk, size_t requested_size, size_t default_size);
+void myth_verif_stack_rel(void * stk, void * frame);
+void myth_verif_desc_acq(void * th, size_t sz, int fresh);
+void myth_verif_desc_rel(void * th);
+void myth_verif_align(const char * fn, void * frame);
+void myth_verif_sched(int what, int rank, void * th);
+unsigned int myth_verif_seed(int rank, unsigned int dflt);
+int myth_verif_clock(struct timespec * ts);
+#ifdef __cplusplus
+}
+#endif
+
+#define MYTH_VERIF_POINT(name) myth_verif_point(MYTH_VERIF_ID_##name)
+#define MYTH_VERIF_SPIN(name)  myth_verif_spin(MYTH_VERIF_ID_##name)
+#define MYTH_VERIF_COV(name)   myth_verif_cov(MYTH_VERIF_ID_##name)
+#define MYTH_VERIF_EV(kind, a, b) myth_verif_ev(MYTH_VERIF_EV_##kind, (const void *)(a), (long)(b))
+#define MYTH_VERIF_STACK_ACQ(stk, req, dflt) myth_verif_stack_acq((void *)(stk), (req), (dflt))
+#define MYTH_VERIF_STACK_REL(stk) myth_verif_stack_rel((void *)(stk), __builtin_frame_address(0))
+#define MYTH_VERIF_DESC_ACQ(th, fresh) myth_verif_desc_acq((void *)(th), sizeof(struct myth_thread), (fresh))
+#define MYTH_VERIF_DESC_REL(th) myth_verif_desc_rel((void *)(th))
+#define MYTH_VERIF_ALIGN() myth_verif_align(__func__, __builtin_frame_address(0))
+#define MYTH_VERIF_SCHED(what, rank, th) myth_verif_sched(MYTH_VERIF_SCHED_##what, (rank), (void *)(th))
+#define MYTH_VERIF_SEED(rank, dflt) myth_verif_seed((rank), (dflt))
+/* spin (instrumented) until cond holds; placed in front of an
+   uninstrumented one-line wait loop on the same condition */
+#define MYTH_VERIF_WAIT_UNTIL(name, cond) do { while (!(cond)) MYTH_VERIF_SPIN(name); } while (0)
+
+#else  /* MYTH_VERIF */
+
+#define MYTH_VERIF_POINT(name) ((void)0)
+#define MYTH_VERIF_SPIN(name)  ((void)0)
+#define MYTH_VERIF_COV(name)   ((void)0)
+#define MYTH_VERIF_EV(kind, a, b) ((void)0)
+#define MYTH_VERIF_STACK_ACQ(stk, req, dflt) ((void)0)
+#define MYTH_VERIF_STACK_REL(stk) ((void)0)
+#define MYTH_VERIF_DESC_ACQ(th, fresh) ((void)0)
+#define MYTH_VERIF_DESC_REL(th) ((void)0)
+#define MYTH_VERIF_ALIGN() ((void)0)
+#define MYTH_VERIF_SCHED(what, rank, th) ((void)0)
+#define MYTH_VERIF_WAIT_UNTIL(name, cond) ((void)0)
+
+#endif /* MYTH_VERIF */
+
+#endif /* MYTH_VERIF_H_ */
